@@ -157,7 +157,21 @@ def _smain(b):
     return smain
 
 
-BODIES = {"smain": _smain, "sh": _sh, "stop": _stop, "fmain_kw": _fmain_kw, "summ_in": _summ_in, "summ": _summ, "fmain": _fmain, "vleaf": _vleaf, "vtop": _vtop, "leaf": _leaf, "mid": _mid, "top": _top, "fanout": _fanout, "idt": _idt, "boom": _boom, "rec": _rec, "guard": _guard,
+def _xleaf(b):
+    def xleaf(x):
+        CALLS["xleaf"] += 1
+        return x + 7 + b
+    return xleaf
+
+
+def _xtop(b):
+    def xtop(x):
+        CALLS["xtop"] += 1
+        return [T("leaf")(x), T("xleaf")(x + b)]
+    return xtop
+
+
+BODIES = {"xleaf": _xleaf, "xtop": _xtop, "smain": _smain, "sh": _sh, "stop": _stop, "fmain_kw": _fmain_kw, "summ_in": _summ_in, "summ": _summ, "fmain": _fmain, "vleaf": _vleaf, "vtop": _vtop, "leaf": _leaf, "mid": _mid, "top": _top, "fanout": _fanout, "idt": _idt, "boom": _boom, "rec": _rec, "guard": _guard,
           "big": _big, "usebig": _usebig}
 
 
